@@ -33,7 +33,13 @@ from explorerscript.ssb_converting.decompiler.write_handlers.abstract import (
 from explorerscript.ssb_converting.decompiler.write_handlers.block import BlockWriteHandler
 from explorerscript.ssb_converting.decompiler.write_handler_manager import WriteHandlerManager
 from explorerscript.ssb_converting.ssb_data_types import SsbOperation
-from explorerscript.ssb_converting.ssb_special_ops import OPS_CTX_LIVES, OPS_CTX_OBJECT, OPS_CTX_PERFORMER
+from explorerscript.ssb_converting.ssb_special_ops import (
+    OPS_CTX_LIVES,
+    OPS_CTX_OBJECT,
+    OPS_CTX_PERFORMER,
+    SsbLabelJump,
+    SwitchStart,
+)
 from explorerscript.ssb_converting.util import Blk
 
 if TYPE_CHECKING:
@@ -84,6 +90,17 @@ class CtxSimpleOpWriteHandler(AbstractWriteHandler):
             ):
                 # (a with block takes one simple statement)
                 raise ValueError("lives/performer/object blocks must not contain message switches.")
+
+        # An operation that could start a switch, but has no cases, is an ordinary operation
+        # (it is written as `switch ( op(...) ) { }` otherwise, which can't follow a context)
+        next_op = exits[0].target_vertex["op"]
+        if isinstance(next_op, SsbLabelJump) and isinstance(next_op.get_marker(), SwitchStart):
+            next_exits = exits[0].target_vertex.out_edges()
+            if len(next_exits) == 1 and not next_exits[0]["switch_ops"]:
+                params = ", ".join([str(param) for param in next_op.root.params])
+                self.decompiler.source_map_add_opcode(next_op.offset)
+                self.decompiler.write_stmnt(f"{next_op.root.op_code.name}<{ctx}>({params});")
+                return next_exits[0].target_vertex
 
         # Fall back to `with` block syntax
         self.decompiler.write_stmnt(f"with ({ctx})")
